@@ -59,6 +59,12 @@ _reg("C12", "xsim.manager.props", "C12", "exploration", {"quick": 4800, "thoroug
      "one case = seeded expression/linear-knob history with 1-3 pickle restarts at random positions, each followed by one of: "
      "mirrored assignments on original and copy, assignments to the copy only, assignments to the original only; distinct = "
      "distinct case digest; non-trivial = at least one pickle restart was executed")
+_reg("C11", "xsim.manager.props", "C11", "exploration", {"quick": 4800, "thorough": 150000}, {"quick": 150, "thorough": 600},
+     ("pure", "compiled"), COMPONENTS_MANAGER,
+     "one case = seeded expression history with 1-3 'restarts' at random positions: dump() -> json -> load() into a fresh manager "
+     "(then mirrored execution), or copy_expr_from into another manager (plain, or rebinding the label to a nested reference, "
+     "overwrite both ways, pre-existing definitions); every assigned expression and target is also printed and re-evaluated; "
+     "distinct = distinct case digest; non-trivial = at least one restart was executed")
 
 
 def driver_for(prop):
